@@ -26,6 +26,7 @@ type Env struct {
 	specDepth int
 	qbind  []string // SMT binder declarations of the enclosing quantifiers
 	tpFrame *Frame  // frame whose type parameters are in scope (spec bodies expanded inside generic code)
+	loopPre *State  // state on entry to the loop whose invariant is being translated (for pre(...))
 }
 
 func (cx *Ctx) typesPkg(path string) *types.Package {
@@ -880,6 +881,13 @@ func (e *Env) trCall(n *ECall) Val {
 			e.fail("str() of non-slice")
 		}
 		return Val{T: u.strOfBytes(e.cur, a.T, st.Elem()), S: "Str", Ty: types.Typ[types.String]}
+	case "pre": // value of an expression in the state in which the current loop was entered
+		if e.loopPre == nil {
+			e.fail("pre() is only available in loop invariants")
+		}
+		sub := e.clone()
+		sub.cur = e.loopPre
+		return sub.tr(n.Args[0])
 	case "deref":
 		a := e.tr(n.Args[0])
 		pt, ok := a.Ty.Underlying().(*types.Pointer)
@@ -1003,6 +1011,7 @@ func (e *Env) trCall(n *ECall) Val {
 		if e.tpFrame != nil {
 			sub.tpFrame = e.tpFrame
 		}
+		sub.loopPre = e.loopPre
 		for i, p := range sf.Params {
 			a := e.tr(n.Args[i])
 			srt, ty := sub.specSort(p.Type)
@@ -1221,6 +1230,7 @@ func (fr *Frame) specEnv(cur, old *State) *Env {
 func (fr *Frame) trInvariant(c *Clause, st *State, h *ssa.BasicBlock) string {
 	env := fr.specEnv(st, fr.entry)
 	env.header = h
+	env.loopPre = fr.loopPre[h]
 	// ghost visited set: "visited" is the set of the map range whose Next sits in this loop header;
 	// visited_<name> addresses any other by the SSA name of its range instruction.
 	for name := range fr.u.heapSort {
